@@ -387,11 +387,8 @@ func checkExtractRequiresExtension(c *km.Ctx, s *km.Sem, rule string) {
 	if fn == nil {
 		return
 	}
-	present := km.Prim{Name: "address extension present", Direct: func(f km.Fact) bool {
-		if f.Op != token.ILLEGAL || !f.Pol {
-			return false
-		}
-		cl, ok := f.X.(*ssa.Call)
+	isOIDEqual := func(v ssa.Value) bool {
+		cl, ok := km.Unwrap(v).(*ssa.Call)
 		if !ok || !strings.HasSuffix(km.CalleeFull(cl.Common()), "asn1.ObjectIdentifier).Equal") {
 			return false
 		}
@@ -401,6 +398,51 @@ func checkExtractRequiresExtension(c *km.Ctx, s *km.Sem, rule string) {
 					return true
 				}
 			}
+		}
+		return false
+	}
+	// a matcher closure handed to slices.IndexFunc / ContainsFunc: func(e) bool { return e.Id.Equal(oid) }
+	isOIDMatcher := func(v ssa.Value) bool {
+		mc, ok := km.Unwrap(v).(*ssa.MakeClosure)
+		var h *ssa.Function
+		if ok {
+			h, _ = mc.Fn.(*ssa.Function)
+		} else {
+			h, _ = km.Unwrap(v).(*ssa.Function)
+		}
+		if h == nil || h.Blocks == nil {
+			return false
+		}
+		n := 0
+		for _, rc := range s.RetCases(h) {
+			if !isOIDEqual(rc.Results[0]) {
+				return false
+			}
+			n++
+		}
+		return n > 0
+	}
+	present := km.Prim{Name: "address extension present", Direct: func(f km.Fact) bool {
+		if f.Op == token.ILLEGAL && f.Pol && isOIDEqual(f.X) {
+			return true
+		}
+		cl, ok := f.X.(*ssa.Call)
+		if !ok {
+			return false
+		}
+		name := km.CalleeFull(cl.Common())
+		if i := strings.Index(name, "["); i > 0 {
+			name = name[:i]
+		}
+		switch name {
+		case "slices.ContainsFunc":
+			return f.Op == token.ILLEGAL && f.Pol && len(cl.Common().Args) == 2 && isOIDMatcher(cl.Common().Args[1])
+		case "slices.IndexFunc":
+			if len(cl.Common().Args) != 2 || !isOIDMatcher(cl.Common().Args[1]) {
+				return false
+			}
+			k, isK := km.ConstInt(f.Y)
+			return isK && ((f.Op == token.GEQ && k == 0) || (f.Op == token.GTR && k == -1) || (f.Op == token.NEQ && k == -1))
 		}
 		return false
 	}}
